@@ -22,11 +22,11 @@ type KnownFinding struct {
 }
 
 type Verdict struct {
-	Name    string
-	Kind    string // violation | known | undecided | missing | vacuous
-	Replay  string
+	Name      string
+	Kind      string // violation | known | undecided | missing | vacuous
+	Replay    string
 	Confirmed bool
-	Detail  string
+	Detail    string
 }
 
 var oblFuncRe = regexp.MustCompile(`^([^/]+)/`)
@@ -471,28 +471,28 @@ func writeEvidence(e *Engine, cfg RunConfig, rr *RunResult, path string, proved,
 		"seed":        seed,
 		"level":       "proof",
 		"coverage": map[string]interface{}{
-			"obligations":              len(proved) + len(failed) - len(known),
-			"discharged":               len(proved),
-			"checker_cmd":              fmt.Sprintf("/verif/bin/tqv -prop %s -tier %s (z3-new/z3/cvc5 raced per obligation, timeout %s)", cfg.Prop, cfg.Tier, cfg.Timeout),
-			"trusted_base":             trusted,
-			"functions_under_contract": rr.Funcs,
-			"path_instances":           rr.Paths,
-			"solver_queries":           rr.Solver.nQueries,
+			"obligations":                    len(proved) + len(failed) - len(known),
+			"discharged":                     len(proved),
+			"checker_cmd":                    fmt.Sprintf("/verif/bin/tqv -prop %s -tier %s (z3-new/z3/cvc5 raced per obligation, timeout %s)", cfg.Prop, cfg.Tier, cfg.Timeout),
+			"trusted_base":                   trusted,
+			"functions_under_contract":       rr.Funcs,
+			"path_instances":                 rr.Paths,
+			"solver_queries":                 rr.Solver.nQueries,
 			"discharged_by_constant_folding": trivial,
-			"discharged_by_backend":    wins,
-			"solver_seconds":           secs,
-			"cover_checks":             covers,
-			"selftest_canaries_run":    selftestRan,
-			"selftest_canaries_missed": selftestMissed,
-			"vacuous":                  vacuous,
-			"known_findings_reported":  known,
-			"undecided":                undecided,
-			"bounded_probes":           boundedProbes(e),
-			"not_discharged":           oblNames(failed),
-			"samples":                  samples,
-			"load_seconds":             round2(rr.LoadSecs),
-			"generate_seconds":         round2(rr.GenSecs),
-			"solve_seconds":            round2(rr.SolveSecs),
+			"discharged_by_backend":          wins,
+			"solver_seconds":                 secs,
+			"cover_checks":                   covers,
+			"selftest_canaries_run":          selftestRan,
+			"selftest_canaries_missed":       selftestMissed,
+			"vacuous":                        vacuous,
+			"known_findings_reported":        known,
+			"undecided":                      undecided,
+			"bounded_probes":                 boundedProbes(e),
+			"not_discharged":                 oblNames(failed),
+			"samples":                        samples,
+			"load_seconds":                   round2(rr.LoadSecs),
+			"generate_seconds":               round2(rr.GenSecs),
+			"solve_seconds":                  round2(rr.SolveSecs),
 		},
 		"assumptions": assumptions,
 		"wall_s":      round2(wall),
